@@ -1,6 +1,8 @@
 #!/bin/bash
 # Runs every kept seeded change (seeded/*/patch.diff) against the check of the property it was filed
-# under and writes seeded/RESULTS.md. Static only (scratch copy, type-check, analyse, remove).
+# under and writes seeded/RESULTS.md. A seed whose hunks were later touched by a `fix:` commit carries a
+# rebased.diff (same change, current context); patch.diff stays as the seeder wrote it.
+#  Static only (scratch copy, type-check, analyse, remove).
 cd "$(dirname "$0")/.."
 out=seeded/RESULTS.md
 echo "| seeded change | property | result | reporting rule |" > $out
@@ -8,7 +10,8 @@ echo "|---|---|---|---|" >> $out
 for d in seeded/*/; do
   n=$(basename $d)
   prop=$(echo $n | sed -E 's/^(C[0-9]+)-.*/\1/')
-  res=$(tools/mutant.sh $d/patch.diff $prop 2>&1 | grep -v KNOWN)
+  patch=$d/patch.diff; [ -f $d/rebased.diff ] && patch=$d/rebased.diff
+  res=$(tools/mutant.sh $patch $prop 2>&1 | grep -v KNOWN)
   if echo "$res" | grep -q "^CAUGHT"; then
     rule=$(echo "$res" | grep -o '\[C[0-9]*/R[0-9a-z]* [a-z0-9-]*\]' | head -1)
     echo "| $n | $prop | caught | $rule |" >> $out
